@@ -25,6 +25,10 @@ type cmdIn struct {
 	Q      Ints        `json:"q"`    // the query text (filled in here)
 	// BadFlag: one more command-line argument that the command must reject (a malformed flag value)
 	BadFlag Ints `json:"badflag"`
+	// Since > 0: the window is given as --end and --since=<Since seconds> (Start is then ignored)
+	Since int `json:"since"`
+	// Metric: the log query is wrapped into count_over_time(... [1m]); the command cannot print samples and must fail
+	Metric bool `json:"metric"`
 }
 
 func (famCmdgen) Gen(r *rand.Rand, n int, _ map[string]string) []any {
@@ -81,7 +85,24 @@ func (famCmdgen) Gen(r *rand.Rand, n int, _ map[string]string) []any {
 			in.Sel = []matcherIn{{Label: B("com_example_role"), Op: "eq", Val: B("r"), Re: eps}}
 		}
 		for j := r.Intn(3); j > 0; j-- {
-			if r.Intn(3) == 0 {
+			if r.Intn(5) == 0 {
+				// stages that change what the renderer is given: the container name is the label's value at the end of the pipeline
+				switch r.Intn(4) {
+				case 0:
+					in.Stages = append(in.Stages, stageIn{T: "drop", Labels: IntsList{B(pick(r, []string{"container", "app", "image"}))}})
+				case 1:
+					in.Stages = append(in.Stages, stageIn{T: "keep", Labels: IntsList{B(pick(r, []string{"container", "app"})), B("msg")}[:1+r.Intn(2)]})
+				case 2:
+					in.Stages = append(in.Stages, stageIn{T: "labelfmt", Renames: []renameIn{{Dst: B("container"), Src: B("container_id")}}})
+				default:
+					in.Stages = append(in.Stages, stageIn{T: "linefmt", Parts: []partIn{{T: "label", Name: B("container")}, {T: "lit", S: B("> ")}, {T: "line"}}})
+				}
+				// (a line filter with != right behind drop / keep would read as a drop matcher)
+				if t := in.Stages[len(in.Stages)-1].T; (t == "drop" || t == "keep") && j > 1 {
+					in.Stages = append(in.Stages, stageIn{T: "line", Op: "eq", Val: B(pick(r, []string{"c", "ok", ""})), Re: eps})
+					j--
+				}
+			} else if r.Intn(3) == 0 {
 				in.Stages = append(in.Stages, stageIn{T: "label", Pred: &predIn{T: "m", Label: B(pick(r, []string{"app", "container"})), Op: allOps[r.Intn(2)], Val: B(pick(r, []string{"a", "n2", "web"})), Re: eps}})
 			} else {
 				in.Stages = append(in.Stages, stageIn{T: "line", Op: []string{"eq", "neq"}[r.Intn(2)], Val: B(pick(r, []string{"err", "-1", "c2", "x", ""})), Re: eps})
@@ -106,6 +127,26 @@ func (famCmdgen) Gen(r *rand.Rand, n int, _ map[string]string) []any {
 			}
 		}
 		in.Limit = []int{-1, -1, 1, 2, 3, 5, 100}[r.Intn(7)]
+		if in.Start[0] != in.End[0] && r.Intn(5) == 0 {
+			// --end and --since: the window starts `since` before its end; frames closer than two seconds to that start move
+			in.Since = []int{30, 45, 60, 90}[r.Intn(4)]
+			ws := in.End[0] - in.Since
+			for c := range in.Ctrs {
+				fr := in.Ctrs[c].Frames
+				for j := range fr {
+					if d := fr[j].TS[0] - ws; d > -2 && d < 2 {
+						fr[j].TS[0] = ws + 2
+					}
+				}
+				for a := 1; a < len(fr); a++ {
+					for b := a; b > 0 && (fr[b].TS[0] < fr[b-1].TS[0] || (fr[b].TS[0] == fr[b-1].TS[0] && fr[b].TS[1] < fr[b-1].TS[1])); b-- {
+						fr[b], fr[b-1] = fr[b-1], fr[b]
+					}
+				}
+			}
+		} else if r.Intn(12) == 0 {
+			in.Metric = true
+		}
 		in.BadFlag = Ints{}
 		if r.Intn(10) == 0 {
 			// the help texts of the flags ("now", "`end - since`") are not values; nor are these
@@ -137,6 +178,9 @@ func (famCmdgen) Exec(scn int, raw json.RawMessage, t *Trace, _ map[string]strin
 		in.Stages = []stageIn{}
 	}
 	in.Q = B(renderLogQuery(in.Sel, in.Stages))
+	if in.Metric {
+		in.Q = B("count_over_time(" + renderLogQuery(in.Sel, in.Stages) + " [1m])")
+	}
 	if in.BadFlag == nil {
 		in.BadFlag = Ints{}
 	}
